@@ -182,6 +182,7 @@ type ledgerFamilyOpts struct {
 	walks       int
 	walkLen     int
 	reorgs      int // reorganisation scenarios (reorg.go)
+	dust        bool // dust-backers scenarios (dust.go)
 	cells       int // batches of CallCells.tla cells (cells.go)
 	relevant    func(v ledgerVerdict) bool // is this rejection about this property?
 }
@@ -241,6 +242,9 @@ func ledgerFamily(run *core.Run, o ledgerFamilyOpts) {
 		for _, pb := range wr.Problems {
 			run.ReportFor("C09", "C09:producer-problem", "producing pillar reported: "+pb+" in "+wr.Run.Name, map[string]interface{}{"kind": "walk", "run": wr.Run.Name})
 		}
+	}
+	if o.dust {
+		runs = append(runs, dustRuns(run, o.prop)...)
 	}
 	if o.cells > 0 {
 		runs = append(runs, cellRuns(run, o.cells)...)
